@@ -144,6 +144,13 @@ def ownership(repo, res):
                     n_sites += 1
                     lut = kwarg_of(c, "lut") or (c.args[1] if len(c.args) > 1 else None)
                     cl = classify(lut, f)
+                    # a module-level helper whose whole body is `return UnitRegistry(lut=<its parameter>, ...)` is judged at
+                    # its call sites (the normal form has substituted it there)
+                    if cl.startswith("Param") and "." not in q and not f.node.decorator_list:
+                        body_ = [s_ for s_ in f.node.body if not (isinstance(s_, ast.Expr) and isinstance(s_.value, ast.Constant))]
+                        if len(body_) == 1 and isinstance(body_[0], ast.Return) and body_[0].value is c:
+                            n_sites -= 1
+                            continue
                     key = f"{mod.rel.split('/')[-1]}:{q}"
                     res.check(cl == "Fresh", key, f.where(c), f"{q} constructs a registry around a table that is {cl}: the new registry and its source share one mutable dict", "Fresh", f"{cl} ({norm(lut) if lut is not None else 'none'})", rid=r1)
     # registry objects obtained by copying
